@@ -215,6 +215,9 @@ class PrimEval:
                 v = TT.NOT(a)
         elif k == "cast" and rv[1] in ("Transmute",):
             v = self.operand(rv[2])
+        elif k == "agg":
+            elems = [self.operand(o) for o in rv[2]]
+            v = ("agg", elems)
         elif k == "ref":
             return
         if len(place) == 1:
@@ -517,7 +520,52 @@ def check_select(facts, meng, fn, verified):
             if blocked:
                 return None, "blocked by unverified %s" % blocked
             return True, "select = copy a0 then set_cond(a1, ctl)"
-    return False, "no set_cond call"
+    return check_select_inline(facts, meng, fn)
+
+
+def _flatten(v):
+    if isinstance(v, tuple) and v and v[0] == "agg":
+        out = []
+        for e in v[1]:
+            f_ = _flatten(e)
+            if f_ is None:
+                return None
+            out.extend(f_)
+        return out
+    if v is None:
+        return None
+    return [v]
+
+
+def check_select_inline(facts, meng, fn):
+    """select written directly on limbs: the returned aggregate's i-th limb is MUX(ctl, a0[i], a1[i])."""
+    pe = PrimEval(facts, meng, fn).run()
+    if pe.ctl is None:
+        return False, "no parameter named ctl"
+    limbs = _flatten(pe.env.get(0))
+    n, _e = elem_count(facts, fn, 1)
+    if limbs is None or n is None:
+        return False, "no set_cond call and the returned value is not an aggregate of bitwise limb expressions"
+    if len(limbs) != n:
+        return False, "returned aggregate has %d limbs, representation has %d" % (len(limbs), n)
+    s_ = pe.sel()
+    # loads are keyed (root, path); pair them by path
+    paths = sorted(set(p_ for (r, p_) in pe.loaded if r == 1) & set(p_ for (r, p_) in pe.loaded if r == 2))
+    if len(paths) != n:
+        return False, "limbs of a0 and a1 read: %d, expected %d" % (len(paths), n)
+    used = set()
+    for e in limbs:
+        ok = False
+        for p_ in paths:
+            if p_ in used:
+                continue
+            if TT.equal(e, TT.mux(s_, pe.loaded[(1, p_)], pe.loaded[(2, p_)])):
+                used.add(p_)
+                ok = True
+                break
+        if not ok:
+            return False, "a returned limb is not MUX(ctl, a0 limb, a1 limb)"
+    return True, "select written on limbs: all %d limbs are MUX(ctl, a0, a1)" % n
 
 
 def negated_fields(facts, meng, fn_neg):
@@ -689,7 +737,7 @@ def _table_param(facts, fn):
 
 
 def check_lookup(facts, fn, verified):
-    from .absint import FnEval
+    from .absint import FnEval, INF as INF_
     body = Body(fn)
     ev = FnEval(facts, body)
     tp, L = _table_param(facts, fn)
@@ -780,29 +828,35 @@ def check_lookup(facts, fn, verified):
             return True, "unrolled scan: all %d entries read with constant indices" % L
         return False, "no loop over the table, no delegation to a scanning lookup, and constant indices %s do not cover 0..%d%s" % (
             sorted(idx)[:8], L - 1, " (data-dependent index present)" if nonconst else "")
-    if len(loops) != 1:
-        return False, "%d loops (expected a single scan loop)" % len(loops)
-    (hdr, blocks), = loops.items()
-    # the Range feeding the loop
-    N = None
-    for bi in body.reach:
-        for s in body.blocks[bi]["s"]:
-            if s[0] == "A" and s[2][0] == "agg" and s[2][1].get("path", "").endswith("ops::Range"):
-                a, c = ev.op_ival(s[2][2][0]), ev.op_ival(s[2][2][1])
-                if a == (0, 0) and c is not None and c[0] == c[1]:
-                    N = int(c[0])
-    if N is None:
-        return False, "scan loop is not a Range 0..const"
-    # every exit from the loop must be the iterator's None edge (no data-dependent break)
-    exits = set()
-    for b_ in blocks:
-        for s_ in body.succ[b_]:
-            if s_ not in blocks and body.blocks[s_]["t"][0] != "unreachable":
-                exits.add((b_, s_))
-    if len(exits) != 1:
-        return False, "scan loop has %d exit edges (early exit?)" % len(exits)
-    # index expressions on the table inside the loop
-    forms = set()
+    # every loop: Range 0..const, single exit (ignoring unreachable arms)
+    for hdr, blocks in loops.items():
+        exits = set()
+        for b_ in blocks:
+            for s_ in body.succ[b_]:
+                if s_ not in blocks and body.blocks[s_]["t"][0] != "unreachable":
+                    exits.add((b_, s_))
+        if len(exits) != 1:
+            return False, "a scan loop has %d exit edges (early exit?)" % len(exits)
+    allblocks = set()
+    for blocks in loops.values():
+        allblocks |= blocks
+    # index expressions on the table inside the loops: linear forms over loop variables with known ranges
+    forms = []
+    bad = []
+
+    def loopvar_range(l):
+        x = l
+        for _ in range(8):
+            d = body.single_def(x)
+            if d and d[2] == "A" and d[3][2][0] == "use":
+                o = d[3][2][1]
+                if o[0] in ("cp", "mv") and len(o[1]) == 3 and isinstance(o[1][1], list) and o[1][1][0] == "d":
+                    return ev.iter_payload(o[1][0])
+                if o[0] in ("cp", "mv") and len(o[1]) == 1:
+                    x = o[1][0]
+                    continue
+            break
+        return None
 
     def visit_place(pl):
         if len(pl) < 3:
@@ -812,36 +866,54 @@ def check_lookup(facts, fn, verified):
             return
         for e in pl[1:]:
             if isinstance(e, list) and e[0] == "i":
-                reads = []
-                key = ev.expr_key(["cp", [e[1]]], reads)
+                key = ev.expr_key(["cp", [e[1]]], [])
                 lf = ev.linform(key)
                 if lf is None:
-                    forms.add(("?",))
+                    bad.append("non-linear")
+                    break
+                terms = []
+                okf = True
+                for k_, v_ in lf[0].items():
+                    if v_ == 0:
+                        continue
+                    if k_[0] != "l":
+                        okf = False
+                        break
+                    rg = loopvar_range(k_[1])
+                    if rg is None or rg[1] == INF_:
+                        okf = False
+                        break
+                    terms.append((v_, int(rg[0]), int(rg[1])))
+                if not okf:
+                    bad.append("index not a function of bounded loop variables")
                 else:
-                    atoms = [(k_, v_) for k_, v_ in lf[0].items() if v_ != 0]
-                    if len(atoms) != 1:
-                        forms.add(("?",))
-                    else:
-                        forms.add((atoms[0][1], lf[1]))
+                    forms.append((terms, lf[1]))
+                break
+            if isinstance(e, list) and e[0] == "c":
+                forms.append(([], e[1]))
                 break
 
     def visit_op(o):
         if o and o[0] in ("cp", "mv"):
             visit_place(o[1])
 
-    for b_ in blocks:
+    for b_ in allblocks:
         blk = body.blocks[b_]
-        for s in blk["s"]:
-            if s[0] != "A":
+        for st in blk["s"]:
+            if st[0] != "A":
                 continue
-            rv = s[2]
-            visit_place(s[1])
-            if rv[0] in ("use", "cast", "un", "repeat"):
-                visit_op(rv[1] if rv[0] != "cast" else rv[2])
+            rv = st[2]
+            visit_place(st[1])
+            if rv[0] in ("use", "repeat"):
+                visit_op(rv[1])
+            elif rv[0] in ("cast", "un"):
+                visit_op(rv[2])
             elif rv[0] == "bin":
                 visit_op(rv[2]); visit_op(rv[3])
-            elif rv[0] in ("ref", "rawptr", "discr"):
-                visit_place(rv[2] if rv[0] != "discr" else rv[1])
+            elif rv[0] in ("ref", "rawptr"):
+                visit_place(rv[2])
+            elif rv[0] == "discr":
+                visit_place(rv[1])
             elif rv[0] == "agg":
                 for o in rv[2]:
                     visit_op(o)
@@ -849,20 +921,27 @@ def check_lookup(facts, fn, verified):
         if t[0] == "call":
             for o in t[2]:
                 visit_op(o)
+    if bad:
+        return False, "table index inside the scan: %s" % bad[0]
     if not forms:
         return False, "the scan loop never indexes the table with its loop variable"
-    if ("?",) in forms:
-        return False, "table index inside the scan loop is not an affine function of the loop variable"
-    coeffs = set(a for a, _b in forms)
-    if len(coeffs) != 1:
-        return False, "mixed strides %s" % sorted(coeffs)
-    a = coeffs.pop()
-    offs = sorted(b for _a, b in forms)
-    if a < 1 or offs != list(range(a)):
-        return False, "row stride %d but columns read %s" % (a, offs)
-    if a * N != L:
-        return False, "scan covers %d x %d entries, table has %d" % (N, a, L)
-    return True, "scans %d rows x %d columns = table length %d" % (N, a, L)
+    covered = set()
+    import itertools
+    for terms, c0 in forms:
+        ranges = [range(lo, hi + 1) for (_a, lo, hi) in terms]
+        total = 1
+        for r_ in ranges:
+            total *= len(r_)
+        if total > 100000:
+            return False, "scan too large to enumerate"
+        for combo in itertools.product(*ranges):
+            covered.add(c0 + sum(a_ * v_ for (a_, _lo, _hi), v_ in zip(terms, combo)))
+    if covered != set(range(L)):
+        missing = sorted(set(range(L)) - covered)[:6]
+        extra = sorted(covered - set(range(L)))[:3]
+        return False, "the scan reads %d distinct entries of %d (missing e.g. %s%s)" % (
+            len(covered & set(range(L))), L, missing, ", out of range %s" % extra if extra else "")
+    return True, "scan covers all %d entries (%d index form(s), %d loop(s))" % (L, len(forms), len(loops))
 
 
 def run_lookups(facts, run, prop="C20"):
